@@ -275,8 +275,8 @@ package scipipe
 //@   atcall io/ioutil.ReadFile reads-the-named-file[C11]: $arg0 == fileName
 //@   atcall encoding/json.Unmarshal decodes-the-bytes-read-into-the-returned-record[C11]: readFileErr == nil && $arg0 == auditFileData && $arg1 == auditInfo
 //@   ensures nonnil: auditInfo != nil
-//@   ensures unreadable-file-is-fatal[C11]: readFileErr == nil || isNotExistErr(readFileErr)
-//@   ensures undecodable-file-is-fatal[C11]: readFileErr == nil ==> unmarshalErr == nil
+//@   atreturn unreadable-file-is-fatal[C11]: readFileErr == nil || isNotExistErr(readFileErr)
+//@   atreturn undecodable-file-is-fatal[C11]: readFileErr == nil ==> unmarshalErr == nil
 //@   assumes loaded: auditInfo == loadedAudit(fileName, fsEpoch)
 
 //@ func (*FileIP).AuditFilePath(ip) (res)
